@@ -509,9 +509,25 @@ def run(ck: Check, prog: Program) -> None:
                 val_ok = kind == 'attr'
                 okp = under and callable_ok and val_ok and not bad
                 why = f'underscore filter={under} callable test={callable_ok} yields getattr(cls, name)={val_ok}' + (f' other filters={bad}' if bad else '')
+    if not okp and 'not recognised' in why and ms is not None:
+        # another enumeration than dir(cls) + callable(): say what it leaves out, where that is known
+        src_calls = [x for x in walk_own(ms.node) if isinstance(x, ast.Call) and (dotted(x.func) or '').rsplit('.', 1)[-1] in ('getmembers', 'vars', 'getmembers_static')]
+        src_attrs = [x for x in walk_own(ms.node) if isinstance(x, ast.Attribute) and x.attr == '__dict__']
+        if src_calls or src_attrs:
+            sc_ = src_calls[0] if src_calls else src_attrs[0]
+            pred = norm(sc_.args[1]) if isinstance(sc_, ast.Call) and len(sc_.args) > 1 else None
+            if pred != 'callable':
+                what = (f'`{norm(sc_)[:60]}` keeps only the members for which `{pred}` holds — a public callable of another kind (a functools.lru_cache '
+                        f'wrapper, a callable object, a nested class, a staticmethod over such a thing) is not exposed') if pred else \
+                       (f'`{norm(sc_)[:60]}` lists only what the class itself defines — public callables inherited from a base view are not exposed')
+                ck.ob('VIEW-PUBLIC', '__methods__ yields exactly the callables whose name does not start with an underscore', False)
+                ck.finding('VIEW-PUBLIC', ms.qualname, 'public callables enumerated by something narrower than dir() + callable()', ms.module.rel, sc_.lineno,
+                           f'{what}: views must expose exactly their public callables, and such a member answers -32601')
+                why = 'narrower enumeration'
     if not okp and 'not recognised' in why:
         raise AnalysisError(f'ViewMixin.__methods__: loop-and-yield form not recognised')
-    ck.ob('VIEW-PUBLIC', '__methods__ yields exactly the callables whose name does not start with an underscore', okp, sample={'form': why})
+    if why != 'narrower enumeration':
+        ck.ob('VIEW-PUBLIC', '__methods__ yields exactly the callables whose name does not start with an underscore', okp, sample={'form': why})
     # ... every time it is asked: the member enumeration is a fresh iterator per registration, never a memoised (shared, one-shot) one
     if ms is not None:
         from ..effects import memoised_one_shot
